@@ -42,6 +42,8 @@ class AbsSeqs:
             return z3.And(z3.Not(x.isnone), self.abs_mem(L, x.inner, st))
         if isinstance(x, SNone):
             return z3.BoolVal(False)
+        if L.ek == 'any':
+            return L.mem(self.to_any(x).t)
         if isinstance(x, (SInt, SRef, SVal, SStr)):
             return L.mem(x.t)
         raise Unsupported('membership of %r in abstract collection' % (x,))
